@@ -350,6 +350,24 @@ def seqspec_probe(ctx):
               {'kind': 'seqspec', 'data': 'unknown meta with list data'}, repr(vars(fu)))
 
 
+def nan_cases(ctx):
+    """A NaN time is a real number too; copy/freeze/thaw carry the very same value over."""
+    nan = float('nan')
+    for m in (Message('note_on', note=5, time=nan), MetaMessage('set_tempo', tempo=7, time=nan),
+              UnknownMetaMessage(0x60, (1,), time=nan), Message('sysex', data=(1, 2), time=nan)):
+        case = {'kind': 'nan', 'class': type(m).__name__}
+        try:
+            c, f = m.copy(), freeze_message(m)
+            t = thaw_message(f)
+            ok = c == m and f == m and t == m and f.copy() == f and freeze_message(c) == f
+            ctx.check('copy() == original, same class, new object', ok and c is not m, 'nan-time-not-equal', case,
+                      [c == m, f == m, t == m])
+            ctx.check('equal frozen => equal hash and dict key', {f: 1}.get(freeze_message(c)) == 1 and hash(f) == hash(freeze_message(m)),
+                      'nan-time-dict-key', case, None)
+        except Exception as exc:
+            ctx.fail('copy() == original, same class, new object', f'nan:{type(exc).__name__}', case, repr(exc))
+
+
 def none_cases(ctx):
     case = {'kind': 'none'}
     try:
@@ -398,7 +416,8 @@ def run(ctx):
     if ctx.shard == 0:
         none_cases(ctx)
         seqspec_probe(ctx)
-        n += 2
+        nan_cases(ctx)
+        n += 3
     ctx.count('cases', n)
 
 
